@@ -242,19 +242,13 @@ fn canary(inv: &Inv, pred: &model::Prediction, out: &run::Outcome, fired: &run::
     if out.trace.is_empty() {
         return Some("empty trace: the interposer did not see a single call".into());
     }
-    let opened: BTreeSet<&str> = out.trace.iter().filter(|e| e.sym == "openr").map(|e| e.target.as_str()).collect();
     match &inv.shape {
-        Shape::Files { mode, .. } if *mode != Mode::InplaceCheck => {
-            // (only liveness of the seam: an implementation may legitimately read a path that is
-            // listed twice only once)
-            let readable: Vec<&str> = pred
-                .inputs
-                .iter()
-                .filter(|i| matches!(i.class, InputClass::Formatted | InputClass::Unformatted | InputClass::Erroneous))
-                .map(|i| i.named.as_str())
-                .collect();
-            if !readable.is_empty() && pred.level == Level::Full && !readable.iter().any(|n| opened.contains(n)) {
-                return Some(format!("no read-open of any of the inputs {:?} in the trace", readable));
+        Shape::Files { mode, paths } if *mode != Mode::InplaceCheck => {
+            // only liveness of the seam: some attempt to open something in the world must be
+            // visible (an implementation may stop early, cache, or de-duplicate - that is for the
+            // invariants to judge, not for the canary)
+            if !paths.is_empty() && pred.level == Level::Full && !out.trace.iter().any(|e| e.sym.starts_with("open")) {
+                return Some("a file list was given but no open call was intercepted".into());
             }
         }
         Shape::FormatAll { .. } => {
